@@ -85,8 +85,15 @@ def streams(rng, tier, ctx):
             for j in range(k):
                 if j in abandoned:
                     continue
-                how = r.pick(["cross", "cross", "sdisc", "cdiscnow", "sdrop", "silence"]) if theme != "cross" else "cross"
-                if how == "cross":
+                how = r.pick(["cross", "cross", "sdisc", "cdiscnow", "sdrop", "silence", "flush_dead", "flush_dead"]) if theme != "cross" else "cross"
+                if how == "flush_dead":
+                    # round-7 change C17-g: the application asks for a graceful disconnect with Reliable data still unacknowledged and the
+                    # peer has gone silent for good - the flush can never complete, only the active timeout ends the connection
+                    nets[(j, "c2s")] = E.Net(loss=1000); nets[(j, "s2c")] = E.Net(loss=1000)
+                    for _ in range(r.range(1, 3)):
+                        sim.send("s", j, r.below(3), 3, r.pick([100, 1448, 5000]))
+                    sim.call("sdisc", j)
+                elif how == "cross":
                     sim.call(r.pick(["sdisc", "sdiscnow"]), j); sim.call(r.pick(["cdisc", "cdiscnow"]), j)
                 elif how == "silence":
                     nets[(j, "c2s")] = E.Net(loss=1000); nets[(j, "s2c")] = E.Net(loss=1000)
